@@ -3,6 +3,7 @@
 import sys
 
 def render(text):
+    ifrows = []
     out = ["/- GENERATED on every run by gen/render.py from the tabulator's output;",
            "   the tabulator evaluates the macros/functions of /repo as compiled. Do not edit. -/",
            "namespace Dbus.Generated", ""]
@@ -24,8 +25,22 @@ def render(text):
         elif kind == "strlist":
             body = ", ".join('"' + v + '"' for v in vals)
             out.append(f"def {name} : List String := [{body}]")
+        elif kind == "str":
+            out.append(f'def {name} : String := "{vals[0]}"')
+        elif kind == "ifacerow":
+            ms = []
+            for v in vals[1:]:
+                mn, sg, anyp, priv = v.split(":")
+                sg = "" if sg == "-" else sg
+                ms.append(f'("{mn}", "{sg}", {"true" if anyp == "1" else "false"}, {"true" if priv == "1" else "false"})')
+            ifrows.append(f'  ("{name}", {"true" if vals[0] == "1" else "false"}, [{", ".join(ms)}])')
         else:
             raise SystemExit(f"render: unknown kind {kind!r}")
+    if ifrows:
+        out.append("/-- `interface_handlers` of bus/driver.c: (interface, any-path, [(method, in-signature, any-path, privileged)]) -/")
+        out.append("def driverTable : List (String × Bool × List (String × String × Bool × Bool)) := [")
+        out.append(",\n".join(ifrows))
+        out.append("]")
     out += ["", "end Dbus.Generated", ""]
     return "\n".join(out)
 
